@@ -33,9 +33,9 @@ checks = {
          "Sampled."),
  "C10": ("4/C10", "runtime monitor (independent fold of committed configuration entries, cross-node agreement, leader-log gate, campaign gate, invariant I3) over simulated hostile executions",
          "ApplyConfChange results are compared with an independent implementation of the configuration algebra folded over the applied log. Sampled."),
- "C11": ("4/C11", "runtime monitor (request registry + causal heartbeat-quorum oracle) and porcupine linearizability check of recorded Put/Get histories over simulated hostile executions",
+ "C11": ("4/C11", "runtime monitor (request registry + causal heartbeat-quorum oracle + wire-fed reference model of the read confirmation state) and porcupine linearizability check of recorded Put/Get histories over simulated hostile executions",
          "Index oracle, production-side quorum/own-term oracle from message causality, and an end-to-end register history per key checked with porcupine v1.3.0. Sampled."),
- "C12": ("4/C12", "reference-model monitor over exhaustively enumerated (ids 1..5) and sampled inputs of the real quorum package",
+ "C12": ("4/C12", "reference-model monitor over exhaustively enumerated (ids 1..5) and sampled inputs of the real quorum package and of tracker.ProgressTracker's quorum functions",
          "Exhaustive inside the stated small domain, sampled beyond; decided by comparing the real functions' results with a definition-level model."),
  "C13": ("4/C13", "reference-model monitor over the breadth-first closure of configurations reachable with the real confchange.Changer (ids 1..4/5) plus random walks",
          "Exhaustive closure inside the stated small domain (frontier emptied), sampled walks beyond."),
@@ -43,9 +43,9 @@ checks = {
          "Any panic escaping a call under the usage contract of DESIGN.md section 3 is a violation. Sampled."),
  "C15": ("4/C15", "runtime monitor of bounded progress: fault-free heal suffix after every hostile prefix, convergence conjunction checked within a fixed number of election timeouts (logical ticks)",
          "Liveness restated as bounded progress (120 election timeouts, logical time only). Sampled; a slowdown below the bound is invisible."),
- "C16": ("4/C16", "runtime monitor (wire-derived inflight window per streaming epoch, message sizes, reference uncommitted-size accounting, invariant I5) over simulated hostile executions",
+ "C16": ("4/C16", "runtime monitor (wire-derived inflight window per streaming epoch, wire-derived pending-snapshot flag, message sizes, reference uncommitted-size accounting, invariant I5) over simulated hostile executions",
          "Sampled."),
- "C17": ("4/C17", "runtime monitor (pre-vote grants per campaign, term/vote stability on MsgPreVote, harness-side lease clock, quorum-contact clock for CheckQuorum leaders) over simulated hostile executions",
+ "C17": ("4/C17", "runtime monitor (pre-vote grants per campaign, term/vote stability on MsgPreVote, harness-side lease clock, quorum-contact clock and reference model of the quorum-check round for CheckQuorum leaders) over simulated hostile executions",
          "Sampled."),
  "C18": ("4/C18", "reference-model monitor over exhaustively enumerated operation sequences (bounded depth, deduplicated by abstract state) and long random sequences against MemoryStorage and the raftLog/unstable view (verif-tagged wrapper)",
          "Exhaustive up to the stated depth over a fixed operation menu, sampled beyond."),
